@@ -5,6 +5,7 @@ LiquidationAction, the attempts seen by a wrapper around _do_liquidate, the wall
 Lean model `Demeter.AaveRisk.liquidate` run by driver_aaverisk under NumCtx.py (bit-exact Decimals)."""
 from __future__ import annotations
 
+import os
 from decimal import Decimal as D
 from fractions import Fraction as F
 
@@ -13,7 +14,7 @@ import aaverisk_lib as L
 from aaverisk_lib import Case, Exact, close, TOL
 
 PROPERTY = "C12"
-LEAN_MODULES = ["Proofs.C12", "Proofs.C12.Loop"]
+LEAN_MODULES = ["Proofs.C12", "Proofs.C12.Loop", "Proofs.C12.Pick"]
 DRIVERS = ["driver_aaverisk"]
 RULE = ("portfolios over the uppercase symbols of the four risk-parameter CSVs: 1-3 collateral supplies (+ optional non-collateral supply), "
         "1-3 debts, liquidity/borrow indices 1..3 different per token, prices log-uniform over 8 decades, debts scaled so that the health factor "
@@ -105,8 +106,23 @@ def gen_case(rng, stream):
     tag = cls
     # ---- special shapes
     if stream == "special":
-        k = rng.choice(["nodebt", "nocoll", "zero-debt-entry", "lt0", "oversized", "heavy-bonus", "cheap-debt", "price0"])
+        k = rng.choice(["nodebt", "nocoll", "zero-debt-entry", "lt0", "oversized", "heavy-bonus", "cheap-debt", "price0", "dust-debt", "dust-coll"])
         tag = k
+        if k in ("dust-debt", "dust-coll"):
+            # remainders below MIN_TOKEN_VALUE that sub_base_amount snaps to 0 (demo.csv: WETH LT 0.825, bonus 0.05)
+            A = D(rng.randint(1, 9000))
+            case = Case(os.path.join(L.RP_DIR, "demo.csv"),
+                        {"WETH": {"li": "1", "bi": "1", "p": "1"}, "USDC": {"li": "1", "bi": "1", "p": "1"}}, [], [], {"WETH": "7"}, {})
+            eps = D(rng.choice(["5E-19", "1E-19", "9.99999998E-19", "9.99999999E-19", "1E-18", "2E-18"]))
+            if k == "dust-debt":
+                # cover = value = A * (1 - eps/A) < A: the repaid amount leaves eps of debt
+                case.toks["USDC"]["p"] = str(1 - eps / A)
+                case.supplies = [["WETH", str(A * D("1.1")), True]]
+                case.debts = [["USDC", str(A)]]
+            else:
+                case.supplies = [["WETH", str(A * D("1.05") + eps), True]]
+                case.debts = [["USDC", str(A)]]
+            return case, tag + ":" + str(eps)
         if k == "nodebt":
             case.debts = []
         elif k == "nocoll":
@@ -151,14 +167,19 @@ def exc_name(e):
 def observe(case: Case):
     m, b, toks, _ = L.build(case)
     rows = {n: L.row_of(m, n) for n in case.toks}
-    obs = {"S0": L.raw(m), "W0": L.wallet_of(b), "rows": rows, "state": L.dump(m), "snaps": [], "attempts": [], "exc": None}
+    obs = {"S0": L.raw(m), "W0": L.wallet_of(b), "rows": rows, "state": L.dump(m), "snaps": [], "attempts": [], "attempt_states": [], "exc": None}
     m._record_action_callback = lambda a: obs["snaps"].append((a, L.raw(m)))
     orig = m._do_liquidate
 
     def wrapped(c, d, v):
         obs["attempts"].append((getattr(c, "name", None), getattr(d, "name", None)))
+        obs["attempt_states"].append((L.raw(m), D(v)))
         return orig(c, d, v)
     m._do_liquidate = wrapped
+    try:
+        obs["hf0_impl"] = L.xfrac(m.health_factor)
+    except Exception:               # noqa: BLE001
+        obs["hf0_impl"] = "?"
     try:
         m.update()
     except Exception as e:          # noqa: BLE001 - the class is the observation
@@ -196,7 +217,8 @@ def oracle(ctx: Ctx, case: Case, obs, tag):
     sane = sane_rows(rows, S0)
     E0 = Exact(S0, rows)
     hf0 = E0.hf
-    near = lambda x, c: x is not None and x != c and abs(x - c) <= F(1, 10 ** 30)   # noqa: E731  undecidable under rounding
+    # within 1e-30 of a threshold the 35-digit rounding decides, unless the implementation's own figure sits exactly on it too
+    near = lambda x, c, impl=None: x is not None and abs(x - c) <= F(1, 10 ** 30) and not (x == c and impl == c)   # noqa: E731
     if obs["exc"] is not None:
         out.append((f"update.raises.{obs['exc']}", f"update() raised {obs['exc']} (HF before = {float(hf0) if hf0 is not None else 'inf'}, "
                     f"{len(obs['snaps'])} liquidation(s) recorded, attempts {obs['attempts']})"))
@@ -204,7 +226,7 @@ def oracle(ctx: Ctx, case: Case, obs, tag):
         out.append(("update.wallet", f"wallet changed by update(): {obs['W0']} -> {obs['W1']}"))
     # --- liquidation iff HF < 1
     below = hf0 is not None and 0 < hf0 < 1
-    if not near(hf0, F(1)):
+    if not near(hf0, F(1), obs["hf0_impl"]):
         if not below and (obs["snaps"] or obs["attempts"] or S1 != S0):
             out.append(("liquidate.when-healthy", f"liquidation although HF = {hf0} is not in (0,1)"))
         if below and sane and not obs["snaps"] and obs["exc"] is None:
@@ -222,7 +244,7 @@ def oracle(ctx: Ctx, case: Case, obs, tag):
         seen_debts.append(d)
         if seized < 0 or repaid < 0:
             out.append(("step.negative", f"negative amounts in the record: seized {seized}, repaid {repaid}"))
-        if hfP is not None and not near(hfP, F(95, 100)):
+        if hfP is not None and not near(hfP, F(95, 100), L.xfrac(a.health_factor_before)):
             cf = F(1, 2) if hfP > F(95, 100) else F(1)
             if repaid > cf * EP.deb_amount(d) * (1 + TOL):
                 out.append(("step.close-factor", f"repaid {float(repaid)} of {float(EP.deb_amount(d))} {d} exceeds close factor {cf} (HF {float(hfP):.6g})"))
@@ -258,6 +280,21 @@ def oracle(ctx: Ctx, case: Case, obs, tag):
         P = Q
     if obs["exc"] is None and P != S1:
         out.append(("liquidate.unrecorded-change", "the state after update() differs from the state after the last recorded liquidation"))
+    # --- which pair: smallest unvisited debt, largest collateral (values at the time of the attempt)
+    done = []
+    for (cn, dn), (St, cover) in zip(obs["attempts"], obs["attempt_states"]):
+        if cn is None or dn is None:
+            continue
+        Et = Exact(St, rows)
+        dv = dict(Et.deb_values())
+        cv = {n: v for n, v, c in Et.sup_values() if c}
+        if any(n not in done and v < dv[dn] * (1 - TOL) for n, v in dv.items()):
+            out.append(("pick.debt-not-smallest", f"liquidated debt {dn} (value {float(dv[dn])}) although a smaller unvisited debt exists: { {n: float(v) for n, v in dv.items()} }"))
+        if cn not in cv or any(v > cv[cn] * (1 + TOL) for v in cv.values()):
+            out.append(("pick.collateral-not-largest", f"seized from {cn} although a more valuable collateral exists: { {n: float(v) for n, v in cv.items()} }"))
+        if not close(F(cover), dv[dn]):
+            out.append(("pick.cover", f"value to cover {cover} is not the debt's value {float(dv[dn])}"))
+        done.append(dn)
     att_debts = [d for _, d in obs["attempts"]]
     if len(set(att_debts)) != len(att_debts):
         out.append(("liquidate.debt-twice", f"a debt token was liquidated twice: {att_debts}"))
@@ -265,7 +302,7 @@ def oracle(ctx: Ctx, case: Case, obs, tag):
     if obs["exc"] is None:
         E1 = Exact(S1, rows)
         hf1 = E1.hf
-        ok_hf = hf1 is None or hf1 >= 1 or near(hf1, F(1))
+        ok_hf = hf1 is None or hf1 >= 1 or near(hf1, F(1), obs["hf1_impl"])
         no_coll = E1.weighted_lt == 0
         all_visited = all(n in att_debts for n, _ in S1["debts"])
         if not (ok_hf or no_coll or all_visited):
@@ -353,12 +390,18 @@ def run(ctx: Ctx):
         for (rep, obs), ans in zip(sub, out):
             if "state" not in ans or obs["exc"] is not None or ans["error"]:
                 continue
-            if len(ans["actions"]) == len(obs["snaps"]):
+            same = len(ans["actions"]) == len(obs["snaps"]) and all(
+                ma["collTok"] == a.collateral_token and ma["debtTok"] == a.debt_token
+                and ma["half"] == (a.health_factor_before > D("0.95"))
+                and close(F(ma["debtRepaid"]), F(D(a.variable_delt_liquidated)), F(1, 10 ** 20))
+                for ma, (a, _) in zip(ans["actions"], obs["snaps"]))
+            if same:
                 for ma, (a, _) in zip(ans["actions"], obs["snaps"]):
                     ctx.dev(F(ma["collUsed"]), F(D(a.collateral_used)))
                     ctx.dev(F(ma["debtRepaid"]), F(D(a.variable_delt_liquidated)))
             else:
-                ctx.count("exact_vs_py_different_step_count")
+                # an exact tie (HF = 0.95 / 1, equal values) that the 35-digit rounding resolves the other way
+                ctx.count("exact_vs_py_branch_differs_at_tie")
 
 
 def replay(ctx: Ctx, case) -> bool:
